@@ -382,7 +382,7 @@ std::string job_c05defer(const Args& a) {
   SimSetup s = sim_setup(a);
   const std::vector<Op> ops = parse_program(a.s("prog"));
   JArr viol;
-  size_t nX = 0, nM = 0, nRel = 0;
+  size_t nX = 0, nM = 0, nRel = 0, crossPassDiffs = 0;
   SimOutcome out = run_simulated(s, [&]() {
     DeferPass A = defer_pass(ops, true);
     Manifold::Impl::meshIDCounter_ = 1;
@@ -393,22 +393,18 @@ std::string job_c05defer(const Args& a) {
       auto p = v.find('|');
       viol.raw(JObj().str("prop", "C05").i64("step", -1).str("op", v.substr(0, p)).str("clause", "unobserved_copy_differs_from_source:" + v.substr(p + 1)).done());
     }
-    if (A.finalX.size() != B.finalX.size()) {
-      viol.raw(JObj().str("prop", "C05").i64("step", -1).str("op", "final").str("clause", "pool_size_depends_on_observation").done());
-    } else {
+    // (2) is informational only: a derived object is a function of the *rounded* coordinates of its
+    // source, transforms composed lazily round differently from transforms applied one by one, and
+    // Simplify/Offset/Decompose are discontinuous in those coordinates -- so even area may differ
+    // between the two histories without anything observable about an existing object having changed.
+    if (A.finalX.size() == B.finalX.size())
       for (size_t i = 0; i < A.finalX.size(); i++)
-        if (A.finalX[i] != B.finalX[i]) {
-          std::string d = xsummary_diff(A.sumX[i], B.sumX[i]);
-          if (d.empty()) continue;
-          viol.raw(JObj().str("prop", "C05").i64("step", (int64_t)i).str("op", "final").str("clause", "cross_section_depends_on_earlier_observation:" + d).done());
-          break;
-        }
-    }
+        if (A.finalX[i] != B.finalX[i] && !xsummary_diff(A.sumX[i], B.sumX[i]).empty()) crossPassDiffs++;
   });
   if (out.exception) viol.raw(JObj().str("prop", "C09").i64("step", -1).str("op", "").str("clause", "exception:" + out.what).done());
   JObj j;
   j.raw("steps", "[]").raw("final", "[]").raw("viol", viol.done());
-  j.u64("objects", nX + nM).u64("tris", 0).u64("derived_suppressed", 0).raw("ops", "{}");
+  j.u64("objects", nX + nM).u64("tris", 0).u64("derived_suppressed", 0).u64("cross_pass_diffs_informational", crossPassDiffs).raw("ops", "{}");
   j.raw("sim", outcome_json(out));
   (void)nRel;
   return j.done();
